@@ -28,8 +28,9 @@ class N:
 
 
 class P:
-    def __init__(self, name, cst, ty):
+    def __init__(self, name, cst, ty, bounds=None):
         self.name, self.cst, self.ty, self.ln = name, cst, ty, 0
+        self.bounds = bounds or []      # [[name, ln]]: bound names of a range / slice parameter, `var int`s of the function
 
 
 class X:
@@ -126,6 +127,25 @@ class Printer:
     # ---- types
     def pdecl(self, name, t, p=None):
         """param_decl with optional name"""
+        if not isinstance(t, str) and t[0] in ('rng', 'slc'):
+            # name[a .. b, c .. d] : range      name[a .. b] : T      (without bound names: [ .. ] : …)
+            n = t[1]
+            bs = p.bounds if p is not None and p.bounds else None
+            self.w((name or "") + "[")
+            for i in range(n):
+                if i:
+                    self.w(", ")
+                if bs:
+                    bs[2 * i][1] = bs[2 * i + 1][1] = self.line
+                    self.w("%s .. %s" % (bs[2 * i][0], bs[2 * i + 1][0]))
+                else:
+                    self.w("..")
+            self.w("] : ")
+            if t[0] == 'rng':
+                self.w("range")
+            else:
+                self.param(None, t[2], t[3])
+            return
         if isinstance(t, str):
             self.w((name + " : " if name else "") + t)
         elif t[0] in ('rec', 'enum'):
@@ -159,12 +179,12 @@ class Printer:
         else:
             raise ValueError(t)
 
-    def param(self, name, c, t):
+    def param(self, name, c, t, p=None):
         if c == 'c':
             self.w("let ")
         elif c == 'v':
             self.w("var ")
-        self.pdecl(name, t)
+        self.pdecl(name, t, p)
 
     def sx_ty(self, t, ln):
         if isinstance(t, str):
@@ -179,6 +199,10 @@ class Printer:
             return "(arrn %d %s %s)" % (t[1], t[2], self.sx_ty(t[3], ln))
         if t[0] == 'tup':
             return "(tup%s)" % "".join(" (%s %s)" % ('d' if c == 'x' else c, self.sx_ty(x, ln)) for c, x in t[1])
+        if t[0] == 'rng':
+            return "(rng %d)" % t[1]
+        if t[0] == 'slc':
+            return "(slc %d %s %s)" % (t[1], t[2], self.sx_ty(t[3], ln))
         raise ValueError(t)
 
     # ---- expressions; returns the s-expression
@@ -465,8 +489,9 @@ class Printer:
             if i:
                 self.w(", ")
             p.ln = self.line
-            self.param(p.name, p.cst, p.ty)
-            ps.append("(%d %s %s %s)" % (p.ln, p.name, p.cst, self.sx_ty(p.ty, p.ln)))
+            self.param(p.name, p.cst, p.ty, p)
+            ps.append("(%d %s %s %s%s)" % (p.ln, p.name, p.cst, self.sx_ty(p.ty, p.ln),
+                                           (" (%s)" % " ".join("(%d %s)" % (b[1], b[0]) for b in p.bounds)) if p.bounds else ""))
         self.w(") -> ")
         rl = self.line
         self.param(None, f.rc, f.rty)
@@ -591,6 +616,16 @@ class Gen:
         return self.fresh('t' if isinstance(t, tuple) and t[0] == 'tup' else p)
 
     def mkparam(self, p, cw, t):
+        r = self.rng.below(100)
+        if r < 8:
+            # a range parameter `r[a .. b] : range`: the bound names are ints of the function
+            n = self.rng.weighted([(1, 5), (2, 1)])
+            self.stat('param_range')
+            return P(self.fresh('r'), self.rng.weighted(cw), ('rng', n), [[self.fresh('b'), 0] for _ in range(2 * n)])
+        if r < 14:
+            self.stat('param_slice')
+            return P(self.fresh('s'), self.rng.weighted(cw), ('slc', 1, self.rng.weighted([('d', 4), ('v', 1)]), self.rand_fn_safe()),
+                     [[self.fresh('b'), 0] for _ in range(2)])
         return P(self.vname(p, t), self.rng.weighted(cw), t)
 
     # ---- environment
@@ -741,6 +776,11 @@ class Gen:
         if t[0] == 'rng':
             self.stat('mk_range')
             return N('range', [self.small_int(d) for _ in range(2 * t[1])], ty=t)
+        if t[0] == 'slc':
+            # a slice of an array literal with these elements
+            self.stat('mk_slice')
+            arr = self.e_make(('arr', t[2], t[3]), d)
+            return N('slice', N('sup', arr, ty=arr.ty), [self.small_int(0) for _ in range(2 * t[1])], ty=t)
         raise ValueError(t)
 
     def small_int(self, d):
@@ -1162,7 +1202,13 @@ class Gen:
         if name:
             scope[name] = V(ft, 'temp', 'func')
         for p in ps:
-            scope[p.name] = V(resolved(p.ty), cst_of_p(norm_c(p.cst)), 'param')
+            pt = resolved(p.ty)
+            if isinstance(pt, tuple) and pt[0] == 'slc':
+                pt = ('slc', pt[1], norm_c(p.ty[2]), pt[3])     # param_check_type: the element type of a slice PARAMETER defaults to const
+            scope[p.name] = V(pt, cst_of_p(norm_c(p.cst)), 'param')
+            for b in p.bounds:
+                # C: param_new_range_dim makes the bound names VAR whatever the parameter is (known finding: assignable)
+                scope[b[0]] = V('int', 'var', 'param')
         f = F(name, ps, rc, rty, None)
         self.curfn = f
         self.path.append(label)
@@ -1268,6 +1314,11 @@ def incompatible_arg_types(pt, gen):
         for t in ('int', 'string', 'bool'):
             if not ty_eq(t, pt[2]):
                 out.append((('arr', 'd', t), 'silent'))
+    elif pt[0] == 'rng':
+        out += [('int', 'kind'), (('arr', 'd', 'int'), 'kind'), (('rng', 3 - pt[1]), 'silent')]
+    elif pt[0] == 'slc':
+        other = 'string' if not ty_eq(pt[3], 'string') else 'int'
+        out += [('int', 'kind'), (('arr', pt[2], pt[3]), 'kind'), (('slc', pt[1], pt[2], other), 'silent')]
     elif pt[0] == 'tup':
         out += [('int', 'kind'), ('string', 'kind')]
         ms = pt[1]
